@@ -5,7 +5,7 @@ Server: `h3/src/server/connection.rs` `shutdown`, `accept`, `poll_accept_request
 (the accept/reject filter, `last_accepted_stream`, `sent_closing`, `recv_closing`,
 `ongoing_streams`), `h3/src/connection.rs` `ConnectionInner::{shutdown, process_goaway}`,
 `set_closing`.  Client: `h3/src/client/connection.rs` `poll_close` (GOAWAY rules) and the
-`send_request` gate `check_peer_connection_closing`.
+`send_request` gates `check_peer_connection_closing` (on entry, and again behind `poll_open_bidi`).
 
 The model describes the code after the D-08 repair: the identifier announced is *exclusive*
 (`largest accepted + (n+1)` in `StreamId` arithmetic, `FIRST_REQUEST + n` when nothing was
